@@ -5,6 +5,7 @@
 -/
 import SLV.Model.Pinned
 import SLV.Num.XQ
+import SLV.Num.Floats
 namespace SLV.Props.Pinned
 open SLV
 
@@ -43,6 +44,49 @@ theorem C14_pinned_case3_counterexample :
 theorem C14_repaired_accepts :
     (match (BOp.deduce (⟨q 1 16, q 6 16, q 9 16, q 1 4⟩ : BOp (XQ .f64))
         (q 0 1, q 10 16, q 6 16) (q 0 1, q 5 16, q 11 16) (q 3 4)).1 with
+      | .ok _ => true | .error _ => false) = true := by
+  decide +kernel
+
+/-! ### Floating-point witnesses (kernel evaluation of Lean's IEEE-754 model of `Float`) -/
+
+def fb (bits : UInt64) : Float := Float.ofBits bits
+def feps : Float := Float.ofBits 0x3CB0000000000000
+
+/-- two nearly vacuous well-formed operands (u = 1-5ε/2 and 1-3ε) with base rates (1/4,3/4), (5/8,3/8) -/
+def nv1 : Opinion Float 2 := ⟨#v[1.25 * feps, 1.25 * feps], 1.0 - 2.5 * feps, #v[0.25, 0.75]⟩
+def nv2 : Opinion Float 2 := ⟨#v[1.5 * feps, 1.5 * feps], 1.0 - 3.0 * feps, #v[0.625, 0.375]⟩
+
+/-- C02 (pinned, binary64): cumulative fusion returns a "base rate" summing to more than 1.09,
+    because `u1 + u2 - 2 u1 u2` is evaluated by catastrophic cancellation. -/
+theorem C02_pinned_base_rate_sum :
+    (let a := Pinned.computeBaseRate .acm false nv1 nv2; decide (a[0] + a[1] > 1.09)) = true := by
+  decide +kernel
+
+/-- C02 (repaired model, binary64): the same operands give a base rate summing to 1 within 4ε. -/
+theorem C02_repaired_base_rate_sum :
+    (let a := computeBaseRate .acm false nv1 nv2
+     decide (a[0] + a[1] ≥ 1.0 - 4.0 * feps) && decide (a[0] + a[1] ≤ 1.0 + 4.0 * feps)) = true := by
+  decide +kernel
+
+/-- C13 (pinned, binary64): binomial cumulative fusion of the same operands returns base rate 0.6 where the
+    exact value is 5/11 ≈ 0.4545. -/
+theorem C13_pinned_cfuse_base_rate :
+    (match Pinned.cfuse (⟨1.25 * feps, 1.25 * feps, 1.0 - 2.5 * feps, 0.25⟩ : BOp Float)
+        ⟨1.5 * feps, 1.5 * feps, 1.0 - 3.0 * feps, 0.625⟩ with
+      | .ok r => decide (r.a > 0.59) | .error _ => false) = true := by
+  decide +kernel
+
+/-- C19 (pinned, binary64): binomial weighted fusion of (0.001,0.002,0.997;0.25) and (0.003,0.001,0.996;0.625)
+    is rejected by its own 4-ulp self-check although the exact result is well-formed. -/
+theorem C19_pinned_wfuse_rejected :
+    isErr (Pinned.wfuse (⟨fb 0x3f50624dd2f1a9fc, fb 0x3f60624dd2f1a9fc, fb 0x3fefe76c8b439581, 0.25⟩ : BOp Float)
+        ⟨fb 0x3f689374bc6a7efa, fb 0x3f50624dd2f1a9fc, fb 0x3fefdf3b645a1cac, 0.625⟩ 0.5) .bdu = true := by
+  decide +kernel
+
+/-- C19 (repaired model, binary64): the same operands are accepted. -/
+theorem C19_repaired_wfuse_accepted :
+    (match BOp.wfuse (⟨fb 0x3f50624dd2f1a9fc, fb 0x3f60624dd2f1a9fc, fb 0x3fefe76c8b439581, 0.25⟩ : BOp Float)
+        ⟨fb 0x3f689374bc6a7efa, fb 0x3f50624dd2f1a9fc, fb 0x3fefdf3b645a1cac, 0.625⟩ 0.5 with
       | .ok _ => true | .error _ => false) = true := by
   decide +kernel
 
